@@ -93,6 +93,13 @@ Theorem C14_timer_tick_bound : forall m order pick m' fl,
   U (m_peers m') <= 10 + len pick /\ m_round m' = (m_round m + 1) mod MAX_OPTIMISTIC_ROUNDS /\ m_status m' = m_status m.
 Proof. exact timer_tick_bound. Qed.
 
+Theorem C14_timer_tick_is_rotation : forall m order pick m' fl,
+  timer_tick m order pick = Ok (m', Some fl) ->
+  let r := (m_round m + 1) mod MAX_OPTIMISTIC_ROUNDS in
+  change_conn_state (mkmgr (m_status m) (m_peers m) (m_candidates m) r (m_extracted m) (m_plens m)) order
+                    (if r =? 0 then pick else []) = Ok (m', fl).
+Proof. exact timer_tick_is_rotation. Qed.
+
 Example C14_nonvacuous :
   let p c i := mkpeer None [] None false c i true false None None in
   match change_conn_state (mkmgr [] [(1, p true true); (2, p false false); (3, p true true)] [] 0 false []) [(1, 5); (2, 9); (3, 5)] [] with
@@ -150,6 +157,7 @@ Print Assumptions C14_messages_follow_map.
 Print Assumptions C14_timer_wrapper.
 Print Assumptions C14_timer_tick_quiet.
 Print Assumptions C14_timer_tick_bound.
+Print Assumptions C14_timer_tick_is_rotation.
 Print Assumptions C14_rate_uploads_counted.
 Print Assumptions C14_rate_block_counted.
 Print Assumptions C14_rate_task_block_counted.
